@@ -8,7 +8,11 @@
 package c01
 
 import (
+	"context"
 	"fmt"
+	"time"
+
+	"github.com/tetratelabs/wazero"
 	"strings"
 	"testing"
 
@@ -28,6 +32,12 @@ type Case struct {
 	Module *wasmgen.Module `json:"module"`
 	Script []runner.Call   `json:"script"`
 	Fuel   int32           `json:"fuel"`
+	// Mutant: Module.Bytes is a generated program after one instruction-level edit (deleted,
+	// duplicated, swapped, replaced, inserted or copied instruction). Most such programs are
+	// invalid and rejected (discarded); the ones the validator accepts are valid programs of
+	// unusual shape (dead code, stack-polymorphic typing, lost fuel accounting), run on both
+	// engines under close-on-context-done with a deadline (a case that reaches it is discarded).
+	Mutant bool `json:"mutant,omitempty"`
 }
 
 func drawConfig(t *rapid.T) wasmgen.Config {
@@ -38,7 +48,7 @@ func drawConfig(t *rapid.T) wasmgen.Config {
 	case 1, 2:
 		cfg.Features = wasmgen.FeatV2
 	case 3:
-		cfg.Features = wasmgen.FeatV2 &^ wasmgen.FeatSIMD | wasmgen.FeatTailCall
+		cfg.Features = wasmgen.FeatV2&^wasmgen.FeatSIMD | wasmgen.FeatTailCall
 	default:
 		cfg.Features = wasmgen.FeatAll
 	}
@@ -128,8 +138,38 @@ func prop(t *rapid.T) {
 // generator-health labels and whether the case is non-trivial.
 func RunCase(c *Case) (msg string, labels []string, nontrivial bool) {
 	opt := runner.Options{FuelPerCall: c.Fuel, Lib: c.Lib}
-	ti := runner.Run(wz.Config("interpreter"), c.Module, c.Script, opt)
-	tc := runner.Run(wz.Config("compiler"), c.Module, c.Script, opt)
+	ci, cc := wz.Config("interpreter"), wz.Config("compiler")
+	if c.Mutant {
+		ci, cc = ci.WithCloseOnContextDone(true), cc.WithCloseOnContextDone(true)
+	}
+	run := func(cfg wazero.RuntimeConfig) runner.Trace {
+		o := opt
+		if c.Mutant {
+			ctx, cancel := context.WithTimeout(context.Background(), 3*time.Second)
+			defer cancel()
+			o.Ctx = ctx
+			tr := runner.Run(cfg, c.Module, c.Script, o)
+			if ctx.Err() != nil {
+				tr.Inst.Kind = "deadline"
+			}
+			return tr
+		}
+		return runner.Run(cfg, c.Module, c.Script, o)
+	}
+	ti := run(ci)
+	tc := run(cc)
+	if c.Mutant {
+		if ti.Inst.Kind == "deadline" || tc.Inst.Kind == "deadline" {
+			return "", []string{"mutant-discarded-deadline"}, false
+		}
+		if ti.Inst.Kind == wz.KOther && tc.Inst.Kind == wz.KOther {
+			return "", []string{"mutant-rejected"}, false
+		}
+		if ti.Inst.Kind == wz.KOther || tc.Inst.Kind == wz.KOther {
+			return fmt.Sprintf("one engine accepts the program and the other rejects it: interpreter=%v compiler=%v", ti.Inst, tc.Inst), nil, false
+		}
+		labels = append(labels, "mutant-accepted")
+	}
 	for _, x := range []struct {
 		n string
 		t *runner.Trace
@@ -182,6 +222,36 @@ func RunCase(c *Case) (msg string, labels []string, nontrivial bool) {
 		}
 	}
 	return "", labels, nontrivial
+}
+
+func propMutant(t *rapid.T) {
+	cfg := drawConfig(t)
+	cfg.MaxFuncs = rapid.IntRange(1, 5).Draw(t, "mutfuncs")
+	m := wasmgen.Generate(t, cfg)
+	script := Script(t, m)
+	mm := *m
+	var op string
+	mm.Bytes, op = wasmgen.MutateIns(t, m)
+	c := &Case{Module: &mm, Script: script, Fuel: cfg.FuelInit, Mutant: true}
+	evid.Journal(c)
+	msg, labels, nt := RunCase(c)
+	if msg != "" {
+		evid.Fail(t, c, "%s (instruction-level mutant: %s)\n%s", msg, op, strings.Join(m.Text, "\n"))
+	}
+	accepted := false
+	for _, l := range labels {
+		if l == "mutant-accepted" {
+			accepted = true
+		}
+	}
+	evid.Case(evid.Hash64(mm.Bytes, fmt.Sprint(c.Script)), nt && accepted, append(labels, "mutant:"+op)...)
+}
+
+func TestMutantDifferential(t *testing.T) {
+	if evid.ReplayPath() != "" {
+		t.Skip()
+	}
+	evid.Check(t, "mutant-differential", evid.Scale(4000, 300000), propMutant)
 }
 
 func TestDifferential(t *testing.T) {
